@@ -69,7 +69,16 @@ def check(run):
         run.rules.pop(x, None)
     run.assumptions += ["v-table pointer acquisition (Policy::dynamic_vptr, virtual_ptr::_vptr) is an opaque leaf here; its content is decided by C09 / C15",
                         "the tables themselves (which definition sits in which cell) are values computed by update: not decided"]
+    # the most specific definition can only run if it was registered: registration helpers construct one registration object per
+    # definition, also above the 512-element split of aggregate<> (E3 unit shared with C20-aggregate)
+    from . import c20
+    from .. import e3
+    run.rule("C01-registered", "aggregate<...> (what use_definitions builds) holds exactly one registration object per definition on both sides of the 512-element split", floor=8)
+    for ob, ok, msg in e3.run_unit(run, "C01-registered", c20.aggregate_unit(run.tier)):
+        if not ok:
+            run.violation("C01-registered", ob["key"], "%s: %s" % (ob["desc"], msg), "include/yorel/yomm2/templates.hpp")
     from .. import crules as _cr
+    _cr.basemap_rules(run, "C01-bases")
     _cr.facet_rules(run, "C01-facets")
     return run.finish(level="other", explanation="Symbolic summary (LLVM IR after mem2reg, library calls substituted) of the function pointer that "
                       "method::operator() calls and that resolve() returns, for every method of the witness matrix, compared structurally "
